@@ -126,9 +126,76 @@ Definition rt (d : dtype) (v : pyval) : Prop :=
 (* ... for every valid value of a (numeric leaf) type: a fact of binary64 arithmetic *)
 Definition num_rt (d : dtype) : Prop := forall v, valid d v = true -> rt d v.
 
-(* what CPython's base64 codec contributes: decoding (as tabulated in E) inverts encoding *)
-Definition b64_law : Prop :=
-  forall b, exists s, c_b64 C b = Some s /\ lookup_sb false s (b64_of E) = Some b.
+(* what CPython's base64 codec contributes, stated per value (a statement for ALL byte strings could not be met by
+   the finite table E, it would make every theorem below vacuous): decoding (as tabulated in E) inverts the
+   encoding of every blob that occurs in the value.  Boolean, so that examples discharge it by computation. *)
+Definition b64_rt (b : str) : bool :=
+  match c_b64 C b with
+  | Some s => match lookup_sb false s (b64_of E) with Some b' => str_eqb b' b | None => false end
+  | None => false
+  end.
+
+Fixpoint b64_ok (d : dtype) (v : pyval) {struct d} : bool :=
+  match d, v with
+  | TBlob _ _, PBytes b => b64_rt b
+  | TArray e _ _, PTuple l => forallb (b64_ok e) l
+  | TTuple es, PTuple l =>
+      (fix go (ds : list dtype) (l : list pyval) : bool :=
+         match ds, l with
+         | [], [] => true
+         | d1 :: ds', x :: r => b64_ok d1 x && go ds' r
+         | _, _ => false
+         end) es l
+  | TStruct ms _ _, PDict kv =>
+      forallb (fun p : str * pyval =>
+                 (fix find (ms : list (str * dtype)) : bool :=
+                    match ms with
+                    | [] => false
+                    | (n, d1) :: ms' => if str_eqb (fst p) n then b64_ok d1 (snd p) else find ms'
+                    end) ms) kv
+  | _, _ => true
+  end.
+
+Lemma b64_ok_tuple es l : b64_ok (TTuple es) (PTuple l) = all2 b64_ok es l.
+Proof.
+  cbn [b64_ok]. revert l. induction es as [|d1 es IH]; destruct l as [|x l]; cbn; try reflexivity.
+  rewrite IH. reflexivity.
+Qed.
+Lemma b64_ok_struct ms o c kv : b64_ok (TStruct ms o c) (PDict kv) = forallb (entry_ok b64_ok ms) kv.
+Proof. reflexivity. Qed.
+
+Lemma b64_rt_law b : b64_rt b = true -> exists s, c_b64 C b = Some s /\ lookup_sb false s (b64_of E) = Some b.
+Proof.
+  unfold b64_rt. destruct (c_b64 C b) as [s|]; [|discriminate].
+  destruct (lookup_sb false s (b64_of E)) as [b'|] eqn:L; [|discriminate].
+  intros H. apply str_eqb_eq in H. subst. eauto.
+Qed.
+
+(* the values the round trip is stated for: valid, and every blob inside obeys the base64 law *)
+Definition vb (d : dtype) (v : pyval) : bool := valid d v && b64_ok d v.
+
+Lemma forallb_andb {A} (f g : A -> bool) l :
+  forallb f l = true -> forallb g l = true -> forallb (fun x => f x && g x) l = true.
+Proof.
+  induction l as [|x l IH]; cbn; [reflexivity|]. intros H1 H2. apply andb_prop in H1. apply andb_prop in H2.
+  destruct H1 as [A1 A2], H2 as [B1 B2]. rewrite A1, B1. cbn. auto.
+Qed.
+Lemma all2_andb (P Q : dtype -> pyval -> bool) es : forall l,
+  all2 P es l = true -> all2 Q es l = true -> all2 (fun d v => P d v && Q d v) es l = true.
+Proof.
+  induction es as [|d1 es IH]; intros [|x l]; cbn; try discriminate; [reflexivity|]. intros H1 H2.
+  apply andb_prop in H1. apply andb_prop in H2. destruct H1 as [A1 A2], H2 as [B1 B2]. rewrite A1, B1. cbn. auto.
+Qed.
+Lemma entry_ok_andb (P Q : dtype -> pyval -> bool) ms p :
+  entry_ok P ms p = true -> entry_ok Q ms p = true -> entry_ok (fun d v => P d v && Q d v) ms p = true.
+Proof.
+  induction ms as [|[n d1] ms IH]; [discriminate|].
+  change (entry_ok P ((n, d1) :: ms) p) with (if str_eqb (fst p) n then P d1 (snd p) else entry_ok P ms p).
+  change (entry_ok Q ((n, d1) :: ms) p) with (if str_eqb (fst p) n then Q d1 (snd p) else entry_ok Q ms p).
+  change (entry_ok (fun d v => P d v && Q d v) ((n, d1) :: ms) p)
+    with (if str_eqb (fst p) n then P d1 (snd p) && Q d1 (snd p) else entry_ok (fun d v => P d v && Q d v) ms p).
+  destruct (str_eqb (fst p) n); [intros H1 H2; rewrite H1, H2; reflexivity|exact IH].
+Qed.
 
 (* ---------------------------------------------------------------- combinator steps *)
 Lemma map_res_cons f x r : map_res f (x :: r) = (f x >>= fun y => map_res f r >>= fun ys => Ok (y :: ys)).
@@ -137,7 +204,7 @@ Lemma mapd_res_cons f d1 ds x r :
   mapd_res f (d1 :: ds) (x :: r) = (f d1 x >>= fun y => mapd_res f ds r >>= fun ys => Ok (y :: ys)).
 Proof. reflexivity. Qed.
 
-Lemma map_chain e l : forallb (valid e) l = true -> (forall v, valid e v = true -> rt e v) ->
+Lemma map_chain e l : forallb (vb e) l = true -> (forall v, vb e v = true -> rt e v) ->
   exists js ws vs, map_res (dt_export C e) l = Ok js /\ map_res (dt_import E e) js = Ok ws /\
     map_res (fun x => dt_validate e x PNone) ws = Ok vs /\ Forall2 py_eq l vs /\ length ws = length l /\
     length js = length l.
@@ -151,8 +218,8 @@ Proof.
     repeat split; [constructor; assumption|congruence|congruence].
 Qed.
 
-Lemma mapd_chain es : Forall (fun d => forall v, valid d v = true -> rt d v) es ->
-  forall l, all2 valid es l = true ->
+Lemma mapd_chain es : Forall (fun d => forall v, vb d v = true -> rt d v) es ->
+  forall l, all2 vb es l = true ->
   exists js ws vs, mapd_res (dt_export C) es l = Ok js /\ mapd_res (dt_import E) es js = Ok ws /\
     mapd_res (fun d x => dt_validate d x PNone) es ws = Ok vs /\ Forall2 py_eq l vs /\
     length ws = length l /\ length js = length l.
@@ -188,14 +255,14 @@ Lemma mem_str_app k a b : mem_str k (a ++ b) = mem_str k a || mem_str k b.
 Proof. induction a as [|x a IH]; cbn; [reflexivity|]. rewrite IH, orb_assoc. reflexivity. Qed.
 
 (* one entry: member lookup, then the three conversions *)
-Lemma member_chain ms : Forall (fun m => forall v, valid (snd m) v = true -> rt (snd m) v) ms ->
-  forall k x, entry_ok valid ms (k, x) = true ->
+Lemma member_chain ms : Forall (fun m => forall v, vb (snd m) v = true -> rt (snd m) v) ms ->
+  forall k x, entry_ok vb ms (k, x) = true ->
   exists j w v', member_res (dt_export C) k x ms = Ok j /\ member_res (dt_import E) k j ms = Ok w /\
     member_res (fun d y => dt_validate d y PNone) k w ms = Ok v' /\ py_eq x v' /\ w <> PNone.
 Proof.
   induction ms as [|[n d1] ms IH]; intros HF k x Hk; [discriminate|].
   inversion HF as [|? ? H1 HF']; subst. cbn [snd] in H1.
-  change (entry_ok valid ((n, d1) :: ms) (k, x)) with (if str_eqb k n then valid d1 x else entry_ok valid ms (k, x)) in Hk.
+  change (entry_ok vb ((n, d1) :: ms) (k, x)) with (if str_eqb k n then vb d1 x else entry_ok vb ms (k, x)) in Hk.
   cbn [member_res]. destruct (str_eqb k n).
   - destruct (H1 x Hk) as (j & w & v' & G). exists j, w, v'. exact G.
   - apply IH; assumption.
@@ -206,8 +273,8 @@ Lemma struct_fold_step f skip ms k x r acc :
   struct_fold f skip ms ((k, x) :: r) acc = (member_res f k x ms >>= fun y => struct_fold f skip ms r (dict_set k y acc)).
 Proof. intros [H|H]; [subst; destruct x; reflexivity|destruct x; try reflexivity; congruence]. Qed.
 
-Lemma struct_chain ms : Forall (fun m => forall v, valid (snd m) v = true -> rt (snd m) v) ms ->
-  forall kv a1 a2 a3, forallb (entry_ok valid ms) kv = true -> keys_nodup (keys kv) = true ->
+Lemma struct_chain ms : Forall (fun m => forall v, vb (snd m) v = true -> rt (snd m) v) ms ->
+  forall kv a1 a2 a3, forallb (entry_ok vb ms) kv = true -> keys_nodup (keys kv) = true ->
   keys a1 = keys a2 -> keys a2 = keys a3 -> (forall k, mem_str k (keys kv) = true -> mem_str k (keys a1) = false) ->
   exists js ws vs, struct_fold (dt_export C) false ms kv a1 = Ok (a1 ++ js) /\
     struct_fold (dt_import E) false ms js a2 = Ok (a2 ++ ws) /\
@@ -277,9 +344,10 @@ Proof.
   rewrite (string_call_ok _ _ _ _ H). repeat split; try constructor; discriminate.
 Qed.
 
-Lemma rt_blob a b v : b64_law -> valid (TBlob a b) v = true -> rt (TBlob a b) v.
+Lemma rt_blob a b v : b64_ok (TBlob a b) v = true -> valid (TBlob a b) v = true -> rt (TBlob a b) v.
 Proof.
-  intros HB. destruct v; cbn [valid in_setb]; try discriminate. intros H. destruct (HB b0) as (s & H1 & H2).
+  intros HB. destruct v; cbn [valid in_setb]; try discriminate. intros H. cbn [b64_ok] in HB.
+  destruct (b64_rt_law b0 HB) as (s & H1 & H2).
   exists (PStr s), (PBytes b0), (PBytes b0). cbn [dt_export dt_import dt_validate dt_call blob_export blob_import blob_call].
   rewrite H1, H2.
   apply andb_prop in H. destruct H as [Ha Hb]. rewrite !Z.ltb_antisym, Ha, Hb. cbn.
@@ -349,10 +417,10 @@ Proof.
 Qed.
 
 (* ---------------------------------------------------------------- the round trip, all datatype trees *)
-Theorem wire_roundtrip : b64_law -> forall d, num_leaves num_rt d -> forall v, valid d v = true -> rt d v.
+Lemma wire_roundtrip_vb : forall d, num_leaves num_rt d -> forall v, vb d v = true -> rt d v.
 Proof.
-  intros HB. induction d as [a b c d|a b|a b c| |ms|a b u|a b|e a b IHe|es IHes|ms o c IHms] using dtype_ind';
-    intros HL v Hv.
+  induction d as [a b c d|a b|a b c| |ms|a b u|a b|e a b IHe|es IHes|ms o c IHms] using dtype_ind';
+    intros HL v Hvb; unfold vb in Hvb; apply andb_prop in Hvb; destruct Hvb as [Hv Hb].
   - apply HL, Hv.
   - apply HL, Hv.
   - apply HL, Hv.
@@ -362,6 +430,7 @@ Proof.
   - apply rt_blob; assumption.
   - (* array *)
     destruct v; try discriminate. cbn [valid] in Hv. apply andb_prop in Hv. destruct Hv as [Hv Hl].
+    cbn [b64_ok] in Hb. pose proof (forallb_andb _ _ _ Hl Hb) as Hlb. clear Hl. rename Hlb into Hl.
     apply andb_prop in Hv. destruct Hv as [H1 H2].
     destruct (map_chain e l Hl (IHe HL)) as (js & ws & vs & G1 & G2 & G3 & G4 & G5 & G6).
     exists (PList js), (PTuple ws), (PTuple vs). cbn [dt_export dt_import dt_validate].
@@ -370,10 +439,11 @@ Proof.
     cbn [bind py_iter py_truthy]. rewrite array_check_len by (rewrite G5; assumption). cbn [bind py_iter]. rewrite G3. cbn.
     repeat split; [constructor; exact G4|discriminate].
   - (* tuple *)
-    destruct v; try discriminate. rewrite valid_tuple in Hv.
+    destruct v; try discriminate. rewrite valid_tuple in Hv. rewrite b64_ok_tuple in Hb.
+    pose proof (all2_andb _ _ _ _ Hv Hb) as Hvb. clear Hb. pose proof (all2_length _ _ Hv) as Hlen0. clear Hv. rename Hvb into Hv.
     apply num_leaves_tuple in HL.
-    assert (HF : Forall (fun d => forall v, valid d v = true -> rt d v) es).
-    { clear Hv. induction es as [|d1 es IH]; constructor.
+    assert (HF : Forall (fun d => forall v, vb d v = true -> rt d v) es).
+    { clear Hv Hlen0. induction es as [|d1 es IH]; constructor.
       - inversion IHes; subst. inversion HL; subst. auto.
       - inversion IHes; subst. inversion HL; subst. auto. }
     destruct (mapd_chain es HF l Hv) as (js & ws & vs & G1 & G2 & G3 & G4 & G5 & G6).
@@ -385,9 +455,15 @@ Proof.
     repeat split; [constructor; exact G4|discriminate].
   - (* struct *)
     destruct v; try discriminate. rewrite valid_struct in Hv. apply andb_prop in Hv. destruct Hv as [Hv H3].
-    apply andb_prop in Hv. destruct Hv as [H1 H2].
+    apply andb_prop in Hv. destruct Hv as [H1 H2]. rewrite b64_ok_struct in Hb.
+    pose proof (forallb_andb _ _ _ H2 Hb) as H2b. clear H2 Hb.
+    assert (H2 : forallb (entry_ok vb ms) kv = true).
+    { clear - H2b. induction kv as [|p kv IH]; cbn [forallb] in *; [reflexivity|]. apply andb_prop in H2b. destruct H2b as [A B].
+      apply andb_prop in A. destruct A as [A1 A2]. pose proof (entry_ok_andb _ _ _ _ A1 A2) as Hx.
+      change (entry_ok vb ms p = true) in Hx. rewrite Hx. cbn [andb]. exact (IH B). }
+    clear H2b.
     apply num_leaves_struct in HL.
-    assert (HF : Forall (fun m => forall v, valid (snd m) v = true -> rt (snd m) v) ms).
+    assert (HF : Forall (fun m => forall v, vb (snd m) v = true -> rt (snd m) v) ms).
     { clear H2 H3. induction ms as [|m ms IH]; constructor.
       - inversion IHms; subst. inversion HL; subst. auto.
       - inversion IHms; subst. inversion HL; subst. auto. }
@@ -422,6 +498,9 @@ Proof.
     cbn. repeat split; [constructor; exact G4|discriminate].
 Qed.
 
+Theorem wire_roundtrip : forall d, num_leaves num_rt d -> forall v, valid d v = true -> b64_ok d v = true -> rt d v.
+Proof. intros d HL v Hv Hb. apply wire_roundtrip_vb; [exact HL|]. unfold vb. rewrite Hv, Hb. reflexivity. Qed.
+
 End RT.
 
 (* ------------------------------------------------------------------ general forms of the defects of the pinned tree *)
@@ -439,9 +518,9 @@ Proof. intros H. cbn. rewrite H. reflexivity. Qed.
 (* setParameterFromString(text): from_string, export_value, then the node's import_value + validate: whenever the text
    is accepted with a valid value w, the node ends up with a value equal to w *)
 Lemma setparam_roundtrip C E d t w :
-  b64_law E C -> num_leaves (num_rt E C) d -> from_string C d t = Ok w -> valid d w = true ->
+  num_leaves (num_rt E C) d -> from_string C d t = Ok w -> valid d w = true -> b64_ok E C d w = true ->
   exists v', set_from_string C E d d t = Ok v' /\ py_eq w v'.
 Proof.
-  intros HB HL H Hv. destruct (wire_roundtrip E C HB d HL w Hv) as (j & w' & v' & H1 & H2 & H3 & H4 & _).
+  intros HL H Hv HB. destruct (wire_roundtrip E C d HL w Hv HB) as (j & w' & v' & H1 & H2 & H3 & H4 & _).
   exists v'. unfold set_from_string, wire. rewrite H. cbn. rewrite H1. cbn. rewrite H2. cbn. auto.
 Qed.
